@@ -288,6 +288,32 @@ func corpus(tier string) ([]History, []string) {
 		Op{K: "release"},
 		Op{K: "cleanup"},
 		Op{K: "destroy", E: 0})
+	// seeded change C04-7: the kill routine must not write back a roster it read before its KILL calls.  A kill
+	// request for an unowned task is held in the master; meanwhile another environment is created (its tasks
+	// are written to the roster), transitions, a cleanup runs; the kill request ends: every owned task is
+	// still in the roster
+	add("create-behind-held-kill",
+		cr(0, []int{0}, plain(0, true)),
+		cr(1, []int{2}, plain(2, true), plain(3, false)),
+		Op{K: "destroy", E: 1, Keep: true},
+		Op{K: "killhold", Ids: []int{tidOf(1, 0)}},
+		cr(2, []int{3}, plain(3, true), plain(4, false)),
+		Op{K: "release"},
+		Op{K: "control", E: 2, Ev: 2},
+		Op{K: "cleanup"},
+		Op{K: "destroy", E: 2, Allow: true},
+		Op{K: "destroy", E: 0})
+	add("two-creations-behind-held-kill",
+		cr(0, []int{2}, plain(2, true), plain(2, false)),
+		Op{K: "destroy", E: 0, Keep: true},
+		Op{K: "killhold", Ids: []int{tidOf(0, 1)}},
+		cr(1, []int{0}, plain(0, true), plain(1, true)),
+		Op{K: "control", E: 1, Ev: 2},
+		cr(2, []int{3}, plain(4, true)),
+		Op{K: "release"},
+		Op{K: "recon"},
+		Op{K: "control", E: 1, Ev: 3},
+		Op{K: "destroy", E: 1}, Op{K: "destroy", E: 2})
 	add("create-undeployable",
 		Op{K: "create", E: 0, Spec: &Spec{Hosts: []int{0}, Fail: 4, Roles: []Role{plain(0, true)}}},
 		cr(1, []int{0}, plain(0, true)))
@@ -523,9 +549,26 @@ func randomHistory(r *gen.Rand, allowSlow bool) (History, string) {
 		return false
 	}
 	var pendingFinish []int
+	held, releaseAt := false, 0
 	for len(h.Ops) < nops {
+		if held && len(h.Ops) >= releaseAt {
+			h.Ops = append(h.Ops, Op{K: "release"})
+			held = false
+			continue
+		}
 		x := r.Intn(100)
 		al := aliveIdx()
+		if held {
+			// KillTasks keeps its mutex: only requests that do not need it (transitions, cleanup, reconciliation)
+			switch {
+			case len(al) > 0 && r.Chance(1, 2):
+				x = 50
+			case r.Chance(1, 4):
+				x = 94
+			default:
+				x = 85
+			}
+		}
 		switch {
 		case (x < 30 || len(al) == 0 && len(pendingFinish) == 0) && len(envs) < 4:
 			s := genSpec(r, envs, allowSlow)
@@ -584,7 +627,27 @@ func randomHistory(r *gen.Rand, allowSlow bool) (History, string) {
 		case x < 82 && len(al) > 0:
 			e := al[r.Intn(len(al))]
 			envs[e].alive = false
-			h.Ops = append(h.Ops, Op{K: "destroy", E: e, Force: r.Chance(1, 4), Allow: r.Chance(2, 5), Keep: r.Chance(1, 3), Fail: r.Chance(1, 10)})
+			d := Op{K: "destroy", E: e, Force: r.Chance(1, 4), Allow: r.Chance(2, 5), Keep: r.Chance(1, 3), Fail: r.Chance(1, 10)}
+			h.Ops = append(h.Ops, d)
+			if d.Keep && !held && len(envs) < 4 && len(pendingFinish) == 0 && r.Chance(1, 2) {
+				// a kill request for one of the kept tasks is held in the master while another environment is
+				// created (and more happens); it ends a few requests later
+				// (a creation that fails would tear down through KillTasks and wait for the held request)
+				ns := genSpec(r, envs, false)
+				for j := range ns.Roles {
+					ns.Roles[j].Launch, ns.Roles[j].Cfg = 0, false
+				}
+				ns.Refuse = nil
+				for i, ro := range envs[e].spec.Roles {
+					if ro.Kind == KPlain && ro.Launch == 0 && ns.Fail == 0 && !conflicts(ns) && !specFails(envs[e].spec) {
+						h.Ops = append(h.Ops, Op{K: "killhold", Ids: []int{tidOf(e, i)}})
+						envs = append(envs, &genEnv{spec: ns, alive: true, state: 2})
+						h.Ops = append(h.Ops, Op{K: "create", E: len(envs) - 1, Spec: ns})
+						held, releaseAt = true, len(h.Ops)+r.Intn(3)
+						break
+					}
+				}
+			}
 		case x < 84 && len(envs) > 0:
 			// an environment that is gone, or was never there
 			h.Ops = append(h.Ops, Op{K: "destroy", E: r.Intn(len(envs) + 1), Force: r.Chance(1, 2)})
@@ -614,6 +677,11 @@ func randomHistory(r *gen.Rand, allowSlow bool) (History, string) {
 					if p.K == "xfail" {
 						reconn = false
 					}
+				}
+				if held {
+					// the master still runs the task whose KILL it holds and would report it: the core answers a
+					// reconciliation update for a task it does not know with a KILL of its own
+					reconn = false
 				}
 				h.Ops = append(h.Ops, Op{K: "recon", Reconn: reconn})
 				if r.Chance(1, 2) {
@@ -681,6 +749,9 @@ func randomHistory(r *gen.Rand, allowSlow bool) (History, string) {
 				h.Ops = append(h.Ops, Op{K: "dies", T: cand[r.Intn(len(cand))]})
 			}
 		}
+	}
+	if held {
+		h.Ops = append(h.Ops, Op{K: "release"})
 	}
 	for _, e := range pendingFinish {
 		h.Ops = append(h.Ops, Op{K: "finish", E: e, Spec: envs[e].spec})
